@@ -226,16 +226,20 @@ func (m *observerManager) RemoveObserver(o *Observer) {
 	}
 	delete(m.indices, o.id)
 
-	observers := m.observers[o.event]
-	observers[idx].id = maxObserverID
+	oldObservers := m.observers[o.event]
+	oldObservers[idx].id = maxObserverID
 
-	last := uint32(len(observers) - 1)
+	// Build a new slice instead of editing in place,
+	// as an event dispatch loop may currently be iterating the old one
+	// (observers can be unregistered from inside callbacks).
+	last := uint32(len(oldObservers) - 1)
+	observers := make([]*observerData, last, len(oldObservers))
+	copy(observers, oldObservers[:last])
 	if idx != last {
-		observers[idx], observers[last] = observers[last], observers[idx]
+		observers[idx] = oldObservers[last]
 		m.indices[observers[idx].id] = idx
 	}
-	observers[last] = nil
-	m.observers[o.event] = observers[:last]
+	m.observers[o.event] = observers
 	m.hasObservers[o.event] = last > 0
 	m.totalCount--
 
